@@ -224,7 +224,7 @@ fn strat(id: CodecId, max: usize) -> BoxedStrategy<Case> {
     let m = id.model();
     // masked DNA sequences avoid '?' and '!', for which no case mapping is claimed
     let allowed: Vec<u8> = m.syms.iter().filter(|s| s.1 != b'?' && s.1 != b'!').map(|s| s.0).collect();
-    (gen::owned_spec(id, max), proptest::collection::vec(proptest::sample::select(allowed.clone()), 0..=4))
+    (gen::owned_spec_raw(id, max), proptest::collection::vec(proptest::sample::select(allowed.clone()), 0..=4))
         .prop_map(move |(mut s, _)| {
             let a0 = allowed[0];
             for c in s.codes.iter_mut() {
